@@ -68,8 +68,12 @@ def _mk_exc_classes() -> dict[str, type]:
         "SERVER_ERROR": ServerError, "TRANSIENT": TimeoutError,
         "AUTH": Exception, "PERMISSION": Exception, "UNKNOWN": Exception,
     }
+    def _nocopy(self, *a):
+        raise TypeError("this exception object cannot be copied")
+
     for k, base in bases.items():
-        cls = type("X" + k, (base,), {})
+        # (an exception may hold a resource that cannot be copied; the library re-raises / reports the object itself)
+        cls = type("X" + k, (base,), {"__copy__": _nocopy, "__deepcopy__": _nocopy})
         if k == "AUTH":
             cls.status = 401
         if k == "PERMISSION":
@@ -95,6 +99,17 @@ class Val:
 
     def __repr__(self) -> str:
         return f"Val({self.vid})"
+
+    # a result may be a handle that cannot be copied (a connection, a lock, an open file): the library hands the
+    # caller's own object on, it never copies it
+    def __copy__(self):
+        raise TypeError("this result object cannot be copied")
+
+    def __deepcopy__(self, memo):
+        raise TypeError("this result object cannot be copied")
+
+    def __reduce_ex__(self, protocol):
+        raise TypeError("this result object cannot be pickled")
 
 
 def opt(x: Any, f=str) -> str:
@@ -213,7 +228,29 @@ def parse_ans(s: str) -> Ans:
     raise ValueError(s)
 
 
-def make_exception(tok: str, falsy_ok: bool = False) -> BaseException:
+# cancellation-type exceptions whose class ALSO derives from Exception (compatibility shims such as
+# `class Cancelled(asyncio.CancelledError, concurrent.futures.CancelledError)`): still a CancelledError /
+# KeyboardInterrupt / SystemExit, so still "never classified, retried, delayed or swallowed" — an `except Exception`
+# arm placed before the pass-through arms would catch them.  Chosen per case by wall_seed bit 21.
+import concurrent.futures as _cf  # noqa: E402
+
+
+class _MixedCancelled(asyncio.CancelledError, _cf.CancelledError):
+    pass
+
+
+class _MixedKeyboardInterrupt(KeyboardInterrupt, Exception):
+    pass
+
+
+class _MixedSystemExit(SystemExit, RuntimeError):
+    pass
+
+
+_MIXED_CANCEL: list = [False]
+
+
+def make_exception(tok: str, falsy_ok: bool = False, mixed: bool = False) -> BaseException:
     """Build the Python exception object for a `raise` answer token (cf. Wire.exnTok)."""
     p = tok.split(":")
     k = p[0]
@@ -236,11 +273,11 @@ def make_exception(tok: str, falsy_ok: bool = False) -> BaseException:
         e = CircuitOpenError("open")
         e._ref = f"c{p[1]}"  # type: ignore[attr-defined]
     elif k == "cancelled":
-        return asyncio.CancelledError()
+        return (_MixedCancelled if (mixed and _MIXED_CANCEL[0]) else asyncio.CancelledError)()
     elif k == "keyboardInterrupt":
-        return KeyboardInterrupt()
+        return (_MixedKeyboardInterrupt if (mixed and _MIXED_CANCEL[0]) else KeyboardInterrupt)()
     elif k == "systemExit":
-        return SystemExit()
+        return (_MixedSystemExit if (mixed and _MIXED_CANCEL[0]) else SystemExit)()
     elif k == "generatorExit":
         return GeneratorExit()
     else:
@@ -471,6 +508,7 @@ class Env:
         self.main_task = None
         _PENDING_TIMEOUT[0] = None
         _STRAY_TIMEOUT[0] = False
+        _MIXED_CANCEL[0] = bool(wall_seed & (1 << 21))
         self.depth = 0
         self.built = None
         self.nested_runs: list = []
@@ -529,18 +567,19 @@ class Env:
     def log_internal(self, req: str, ans: str) -> None:
         self.exchanges.append((self.step, req, ans))
 
-    def _raise_or(self, a: Ans) -> None:
+    def _raise_or(self, a: Ans, mixed: bool = False) -> None:
+        """`mixed`: the operation and the sleepers only (C13: "raised by the operation or during a sleep")"""
         if a.kind == "raise":
-            raise make_exception(a.a)
+            raise make_exception(a.a, mixed=mixed)
 
-    async def _araise_or(self, a: Ans) -> None:
+    async def _araise_or(self, a: Ans, mixed: bool = False) -> None:
         """Async variant: optionally deliver BaseException-only kinds via a real suspension."""
         if a.kind == "raise":
             k = a.a.split(":")[0]
             if self.deliver_throw and k in ("cancelled", "keyboardInterrupt", "systemExit", "generatorExit"):
                 await Suspend(a.a)     # the coroutine driver throws the exception in here
                 raise AssertionError("suspension resumed without exception")
-            raise make_exception(a.a)
+            raise make_exception(a.a, mixed=mixed)
 
     # -- canonical argument text -------------------------------------------------------------
     @staticmethod
@@ -645,7 +684,7 @@ class Env:
         if e is None:
             # not with the sync attempt timeout: CPython's `concurrent.futures.Future.result()` itself tests
             # `if self._exception:` and RETURNS None for a falsy exception — the standard library's doing
-            e = make_exception(tok, falsy_ok=not self.cfg.has("attempt_timeout"))
+            e = make_exception(tok, falsy_ok=not self.cfg.has("attempt_timeout"), mixed=True)
             try:
                 e._from_op = True  # type: ignore[attr-defined]
             except AttributeError:
@@ -675,7 +714,7 @@ class Env:
             raise AssertionError("a hanging operation was resumed")
         if a.kind == "raise" and a.a.split(":")[0] in ("ordinary", "abort", "exhausted", "circuitOpen"):
             raise self._op_exception(a.a)
-        await self._araise_or(a)
+        await self._araise_or(a, mixed=True)
         return self._val(a.a)
 
     def _classification(self, a: Ans):
@@ -798,7 +837,7 @@ class Env:
         if self.is_async and lvl != "policy":
             async def asleeper(d):
                 a = self.ask(f"sleeper {lvl} {to_ticks(d)}", "sleeper", {"d": to_ticks(d)})
-                await self._araise_or(a)
+                await self._araise_or(a, mixed=True)
             return asleeper
 
         if self.is_async and (self.wall_seed_bits & 2):
@@ -806,7 +845,7 @@ class Env:
             # __await__ would be): nothing happens unless the library awaits it
             async def later(d):
                 a = self.ask(f"sleeper {lvl} {to_ticks(d)}", "sleeper", {"d": to_ticks(d)})
-                await self._araise_or(a)
+                await self._araise_or(a, mixed=True)
 
             def deferred_sleeper(d):
                 return _Deferred(later(d))
@@ -814,16 +853,16 @@ class Env:
 
         def sleeper(d):
             a = self.ask(f"sleeper {lvl} {to_ticks(d)}", "sleeper", {"d": to_ticks(d)})
-            self._raise_or(a)
+            self._raise_or(a, mixed=True)
         return _FalsyCallable(sleeper) if (self.wall_seed_bits & 128) else sleeper
 
     def _default_sleep(self, d: float) -> None:
         a = self.ask(f"sleeper default {to_ticks(d)}", "sleeper", {"d": to_ticks(d)})
-        self._raise_or(a)
+        self._raise_or(a, mixed=True)
 
     async def _default_async_sleep(self, d: float) -> None:
         a = self.ask(f"sleeper default {to_ticks(d)}", "sleeper", {"d": to_ticks(d)})
-        await self._araise_or(a)
+        await self._araise_or(a, mixed=True)
 
     def attempt_start(self, c) -> None:
         a = self.ask(f"attemptStart {self.actx(c)}", "attemptHook")
@@ -1077,14 +1116,37 @@ def build(env: Env, cfg: LoopCfg) -> Built:
             d.clear()
             d.update({k: 99 for k in ErrorClass})      # (a larger cap: an aliasing policy would over-retry)
 
+    # the classifier (and result classifier) assigned AFTER everything was built, a decoy in their place until then:
+    # `retry.classifier` is a public attribute that the loop and the policy read at failure time; nothing may have
+    # captured the construction-time value (wall_seed bit 20)
+    late_cls = (bool(env.wall_seed_bits & (1 << 20)) and cfg.kind in ("Retry", "Policy", "RetryPolicy")
+                and not cfg.has("no_retry"))
+    real_cls = (retry_kwargs["classifier"], retry_kwargs["result_classifier"])
+    if late_cls:
+        def _decoy(_x):
+            env.__dict__["stale"] = env.__dict__.get("stale", 0) + 1
+            return ErrorClass.UNKNOWN
+        retry_kwargs["classifier"] = _decoy
+        if real_cls[1] is not None:
+            retry_kwargs["result_classifier"] = _decoy
+
+    def _assign_late(component):
+        if late_cls:
+            component.classifier = real_cls[0]
+            if real_cls[1] is not None:
+                component.result_classifier = real_cls[1]
+
     if cfg.kind == "Retry":
         target = construct(R, True)
         scramble()
+        _assign_late(target)
         return Built(target, budget, breaker, call_kwargs, ("call", "execute"))
     if cfg.kind == "Policy":
         retry = None if cfg.has("no_retry") else construct(R, True)
         scramble()
         target = P(retry=retry, circuit_breaker=breaker)
+        if retry is not None:
+            _assign_late(target.retry)
         return Built(target, budget, breaker, call_kwargs, ("pcall", "pexecute"))
     if cfg.kind == "RetryPolicy":
         if env.wall_seed_bits & 16:
@@ -1096,7 +1158,11 @@ def build(env: Env, cfg: LoopCfg) -> Built:
                 setattr(target, k, v)
         else:
             target = construct(RP, False)
+        for k, v in hook_kwargs.items():
+            if v is not None:
+                setattr(target, k, v)       # policy-level attempt hooks: only assignable, and must be forwarded
         scramble()
+        _assign_late(target)
         return Built(target, budget, breaker, call_kwargs, ("pcall", "pexecute"))
     if cfg.kind == "decorator":
         # hooks are fixed at decoration time; only call() exists
